@@ -122,6 +122,11 @@ def spec_geometry(h):
 SEPS = [b'-- ', b'-- \r', b'--', b'-- x', b'---', b'++ ', b'== ', b'-- \n', b'', b'diff --git a/x b/x', b'--- a/x', b'+++ b/x', b'index 123..456', b'@@ not a header', b'@@ -1 +1', b'garbage',
         b'\\ No newline at end of file', b' context-like', b'-minus', b'+plus', b'@@ -a,1 +1 @@', b'@@ -1,1 +1,1 @@x']
 
+# lines shaped like a hunk header with every other delimiter (Subversion property hunks use ##, combined diffs @@@,
+# context diffs *** / ---): only "@@ ... @@" starts a hunk
+SEPS += [d + b' -1,1 +1,1 ' + d + t for ch in b'!"#$%&\'()*+,-./:;<=>?[\\]^_`{|}~' for d in (bytes([ch]) * 2,) for t in (b'', b' text')] + \
+    [b'@@@ -1 -1 +1 @@@', b'@ -1 +1 @', b'@@@@ -1 +1 @@@@', b'## -0,0 +1 ##', b'@@ -1 +1 ##', b'## -1 +1 @@', b'Property changes on: x']
+
 SMALL = [b'@@ -1 +1 @@', b'@@ -1,2 +1,0 @@', b'@@ -0,0 +1 @@ ctx', b'-a', b'+b', b' c', b'\\ No newline at end of file',
          b'garbage', b'@@ bad']
 
